@@ -34,11 +34,11 @@ def floatApprox (fraction margin fx fy : Float) : Bool :=
     let relMarg := fraction * goMin fx.abs fy.abs
     (fx - fy).abs <= goMax margin relMarg
 
-/-- `DurationValueWithinP(p)` on two int64 durations, in binary32 arithmetic. -/
+/-- `DurationValueWithinP(p)` on two int64 durations, in binary64 arithmetic (p is a float32, widened). -/
 def durWithinP (p : Float32) (xd yd : Int64) : Bool :=
-  let pd := xd.toFloat32 / yd.toFloat32
-  let pd := if pd < 0 then -pd else pd
-  pd < p
+  let fx := xd.toFloat
+  let fy := yd.toFloat
+  (fx - fy).abs * 100.0 <= p.toFloat * goMin fx.abs fy.abs
 
 open ScVerif.Line in
 def handle? (toks : List String) : Option String :=
@@ -50,7 +50,7 @@ def handle? (toks : List String) : Option String :=
     let y ← parseNat? y
     let f := fun (n : Nat) => Float.ofBits n.toUInt64
     pure (showBool (floatApprox (f fr) (f mg) (f x) (f y)))
-  | ["dp32", p, x, y] => do
+  | ["dp64", p, x, y] => do
     let p ← parseNat? p
     let x ← parseInt? x
     let y ← parseInt? y
